@@ -84,10 +84,10 @@ def rename_ops(ops, pre):
 # model sources
 # --------------------------------------------------------------------------------------------------
 
-def gen_lp_model(rng):
+def gen_lp_model(rng, kind='lp'):
     n = rng.randint(2, 4)
     x0 = [gen.r2(rng, -1, 1) for _ in range(n)]
-    ops = [{'op': 'model', 'id': 'm', 'kind': 'lp'}, {'op': 'dvar', 'id': 'x', 'm': 'm', 'shape': [n]}]
+    ops = [{'op': 'model', 'id': 'm', 'kind': kind}, {'op': 'dvar', 'id': 'x', 'm': 'm', 'shape': [n]}]
     cons = [['>=', ['v', 'x'], ['c', [v - 2 for v in x0]]], ['<=', ['v', 'x'], ['c', [v + 2 for v in x0]]]]
     for _ in range(rng.randint(1, 3)):
         a = [gen.nz2(rng, -2, 2) for _ in range(n)]
@@ -96,7 +96,7 @@ def gen_lp_model(rng):
         ops.append({'op': 'cons', 'id': 'k%d' % i, 'e': c})
     ops.append({'op': 'st', 'm': 'm', 'ids': ['k%d' % i for i in range(len(cons))], 'aslist': True})
     ops.append({'op': 'obj', 'm': 'm', 'how': rng.choice(['min', 'max']), 'e': ['@', ['c', [gen.nz2(rng) for _ in range(n)]], ['v', 'x']]})
-    return {'kind': 'lp', 'ops': ops, 'pool': ['def', 'ort', 'grb', 'eco'], 'tol': 1e-6,
+    return {'kind': kind, 'ops': ops, 'pool': ['grb', 'def', 'ort', 'eco'], 'tol': 1e-6,
             'dvars': [('x', n)], 'rvars': [], 'robust': [], 'det_cons': ['k%d' % i for i in range(len(cons))], 'ambs': []}
 
 
@@ -131,15 +131,15 @@ def gen_model(rng, which):
         return {'kind': 'ro', 'ops': p['ops'], 'pool': peer.capable(p['cls']), 'tol': peer.TOLS[p['cls']] * 10,
                 'dvars': [(v, sizes[v]) for v in p['vars']], 'rvars': [], 'robust': [],
                 'det_cons': ['k%d' % i for i in range(ncons)], 'ambs': []}
-    return gen_lp_model(rng)
+    return gen_lp_model(rng, which if which in ('lp', 'socp', 'gcp') else 'lp')
 
 
-SOURCES = ['ro-sep', 'ro-sep', 'combo-dro', 'combo-dro', 'combo-ro', 'prog', 'lp']
+SOURCES = ['ro-sep', 'ro-sep', 'combo-dro', 'combo-dro', 'combo-ro', 'prog', 'lp', 'lp', 'socp', 'gcp']
 
 MISUSE = ['cross_st', 'cross_add', 'cross_mul_rvar', 'cross_add_rvar', 'foreign_set_forall', 'foreign_amb_forall',
           'foreign_supp', 'foreign_expt', 'foreign_prob', 'foreign_amb_objective', 'second_objective', 'nonscalar_objective',
           'read_unsolved', 'read_failed', 'ambiguity_after_constraints', 'foreign_adapt', 'foreign_set_minmax',
-          'foreign_amb_forall_explin', 'foreign_amb_forall_exppw']
+          'foreign_amb_forall_explin', 'foreign_amb_forall_exppw', 'cross_concat', 'concat_dvar_rvar']
 
 
 def gen_case(seed, cfg):
@@ -188,7 +188,12 @@ def gen_case(seed, cfg):
                 j = rng.choice(done)
                 sv = rng.choice(models[j]['pool'])
                 ev = {'op': 'solve', 'm': models[j]['pre'] + 'm', 'solver': sv, 'env': 1, 'task': models[j]['pre']}
-                if rng.random() < 0.25:
+                if sv == 'grb' and rng.random() < 0.5:
+                    ev['params'] = rng.choice([{'SolutionLimit': 1}, {'IterationLimit': 0}, {'TimeLimit': 0.0}, {'Method': 1},
+                                               {'MIPGap': 0.5, 'NodeLimit': 0}])
+                    ev['display'] = rng.random() < 0.3
+                    ev['log'] = rng.random() < 0.3
+                elif rng.random() < 0.25:
                     ev['fault'] = dict(rng.choice([f for f in FAULTS_BY_ENGINE[sv] if f['kind'] in ('status', 'raise')]))
                     state[j]['failed'] = ev['fault']['kind'] == 'status'
                     if ev['fault']['kind'] == 'status':
@@ -241,15 +246,31 @@ def gen_misuse(rng, models, state):
             a_amb = have(A, sa, A['ambs'])
             b_amb = have(B, sb, B['ambs'])
             mk = {'mis': kind, 'task': pa, 'expect': 'raise', 'touch': [pa, pb]}
-            if kind == 'cross_st' and pa + 'm' in sa['built'] and b_cons and A['kind'] != 'lp':
+            if kind == 'cross_st' and pa + 'm' in sa['built'] and b_cons and A['kind'] not in ('lp', 'socp', 'gcp'):
                 return [dict(mk, op='st', m=pa + 'm', ids=[pb + rng.choice(b_cons)])]
-            if kind == 'cross_st' and pa + 'm' in sa['built'] and b_cons and A['kind'] == 'lp':
+            if kind == 'cross_st' and pa + 'm' in sa['built'] and b_cons and A['kind'] in ('lp', 'socp', 'gcp'):
                 return [dict(mk, op='st', m=pa + 'm', ids=[pb + rng.choice(b_cons)], aslist=True)]
             if kind == 'cross_add' and a_dv and b_dv:
                 return [dict(mk, op='expr', id='bad', e=['+', ['sum', ['v', pa + rng.choice(a_dv)]], ['sum', ['v', pb + rng.choice(b_dv)]]])]
-            if kind == 'cross_mul_rvar' and a_dv and b_rv and A['kind'] != 'lp':
+            if kind == 'cross_concat' and a_dv and b_dv:
+                fn = rng.choice(['concat', 'concat', 'vec', 'rstack', 'cstack'])
+                ea, eb = ['v', pa + rng.choice(a_dv)], ['v', pb + rng.choice(b_dv)]
+                if fn == 'vec':
+                    ea, eb = ['sum', ea], ['sum', eb]
+                elif fn in ('rstack', 'cstack'):
+                    ea, eb = ['i', ea, [0, 1]] if dict(A['dvars'])[ea[1][len(pa):]] > 1 else ea, ['i', eb, [0, 1]] if dict(B['dvars'])[eb[1][len(pb):]] > 1 else eb
+                    if dict(A['dvars'])[ea[1][len(pa):] if ea[0] == 'v' else ea[1][1][len(pa):]] == 1 or \
+                            dict(B['dvars'])[eb[1][len(pb):] if eb[0] == 'v' else eb[1][1][len(pb):]] == 1:
+                        fn = 'vec'
+                        ea, eb = ['sum', ['v', pa + a_dv[0]]], ['sum', ['v', pb + b_dv[0]]]
+                return [dict(mk, op='expr', id='bad', e=[fn, ea, eb])]
+            if kind == 'concat_dvar_rvar' and a_dv and A['kind'] in ('ro', 'dro'):
+                a_rv = have(A, sa, [n for n, _ in A['rvars']])
+                if a_rv:
+                    return [dict(mk, op='expr', id='bad', e=['concat', ['v', pa + rng.choice(a_dv)], ['v', pa + rng.choice(a_rv)]], touch=[pa])]
+            if kind == 'cross_mul_rvar' and a_dv and b_rv and A['kind'] not in ('lp', 'socp', 'gcp'):
                 return [dict(mk, op='expr', id='bad', e=['*', ['sum', ['v', pa + rng.choice(a_dv)]], ['i', ['v', pb + rng.choice(b_rv)], 0]])]
-            if kind == 'cross_add_rvar' and a_dv and b_rv and A['kind'] != 'lp':
+            if kind == 'cross_add_rvar' and a_dv and b_rv and A['kind'] not in ('lp', 'socp', 'gcp'):
                 return [dict(mk, op='expr', id='bad', e=['+', ['sum', ['v', pa + rng.choice(a_dv)]], ['i', ['v', pb + rng.choice(b_rv)], 0]])]
             if kind == 'foreign_set_forall' and a_rob and b_rv and A['kind'] == 'ro':
                 zb = pb + rng.choice(b_rv)
@@ -279,7 +300,7 @@ def gen_misuse(rng, models, state):
                 return [dict(mk, op='obj', m=pa + 'm', how=rng.choice(['minmax', 'maxmin']), e=['sum', ['v', pa + rng.choice(a_dv)]],
                              set=[['<=', ['f', 'abs', ['v', zb]], ['c', 1.0]]])]
             if kind == 'second_objective' and sa['obj'] and a_dv:
-                hows = {'lp': ['min', 'max'], 'ro': ['min', 'max', 'minmax', 'maxmin'], 'dro': ['min', 'max', 'minsup', 'maxinf']}[A['kind']]
+                hows = {'lp': ['min', 'max'], 'socp': ['min', 'max'], 'gcp': ['min', 'max'], 'ro': ['min', 'max', 'minmax', 'maxmin'], 'dro': ['min', 'max', 'minsup', 'maxinf']}[A['kind']]
                 how = rng.choice(hows)
                 o = dict(mk, op='obj', m=pa + 'm', how=how, e=['sum', ['v', pa + rng.choice(a_dv)]])
                 if how in ('minmax', 'maxmin'):
@@ -293,7 +314,7 @@ def gen_misuse(rng, models, state):
             if kind == 'nonscalar_objective' and not sa['obj'] and pa + 'm' in sa['built']:
                 big = [n for n in a_dv if dict(A['dvars'])[n] > 1]
                 if big:
-                    hows = {'lp': ['min', 'max'], 'ro': ['min', 'max', 'minmax', 'maxmin'], 'dro': ['min', 'max', 'minsup', 'maxinf']}[A['kind']]
+                    hows = {'lp': ['min', 'max'], 'socp': ['min', 'max'], 'gcp': ['min', 'max'], 'ro': ['min', 'max', 'minmax', 'maxmin'], 'dro': ['min', 'max', 'minsup', 'maxinf']}[A['kind']]
                     how = rng.choice(hows)
                     o = dict(mk, op='obj', m=pa + 'm', how=how, e=['v', pa + rng.choice(big)])
                     if how in ('minmax', 'maxmin'):
@@ -417,8 +438,12 @@ def check_case(case, props):
                 if out['sol'] != 'opt':
                     if mm['pre'] in polluted:
                         stats['observations']['not_optimal_after_rejected_misuse'] = 1
+                    elif out['sol'] == 'inconclusive':
+                        stats['inconclusive']['engine_limit:%s' % out.get('status')] = 1
                     else:
-                        stats['inconclusive']['interleaved_not_optimal:%s' % out.get('status')] = 1
+                        viol('models-interfere', 'model %s (%s): %s reports no optimum (status %s) after the interleaved run, the same '
+                             'declared model built alone solved to %.9g with the same interface'
+                             % (mm['pre'], mm['kind'], sv, out.get('status'), obj0))
                     continue
                 stats['isolation_checks'] += 1
                 if not close(out['obj'], obj0, mm['tol']):
